@@ -124,6 +124,98 @@ pickle.dump(fails, open(sys.argv[3], 'wb'))
 '''
 
 
+HISTORY_SCRIPT = r'''
+# Two evaluation histories over one scratch directory that is *not* reset between evaluations, each in its own forked
+# child of a process that never evaluates anything: the outcome of the last program must be the same.
+import sys, os, pickle, tempfile
+sys.path.insert(0, sys.argv[1])
+from uh import impl
+from uh.corr import obs
+items = pickle.load(open(sys.argv[2], 'rb'))
+impl.sandbox()
+tmp = tempfile.mktemp(prefix='uhverif_c20h_')
+
+def in_child(fn):
+    pid = os.fork()
+    if pid == 0:
+        try:
+            out = fn()
+        except BaseException as e:
+            out = {'kind': 'harness-error', 'msg': repr(e)}
+        with open(tmp, 'wb') as f:
+            pickle.dump(out, f)
+        os._exit(0)
+    os.waitpid(pid, 0)
+    with open(tmp, 'rb') as f:
+        out = pickle.load(f)
+    os.unlink(tmp)
+    return out
+
+def history(fs, progs):
+    def fn():
+        r = None
+        for i, p in enumerate(progs):
+            r = obs(impl.run_main(p, "", fs if i == 0 else impl.KEEP, True, 10.0, reset_registry=(i == 0)), True)
+        return r
+    return in_child(fn)
+
+fails = []
+for fs, a, b in items:
+    ra, rb = history(fs, a), history(fs, b)
+    if ra != rb:
+        fails.append((a, b, ra, rb))
+pickle.dump(fails, open(sys.argv[3], 'wb'))
+'''
+
+
+@monitor('c20_history')
+def _history(case, a):
+    """`data` = [(fs, history A, history B)]: both histories end with the same program and leave the same files behind
+    before it; its outcome (result, output, files) must not depend on what else was evaluated before in the process"""
+    import tempfile, pickle
+    with tempfile.TemporaryDirectory(prefix='uhverif_c20h_') as d:
+        sf, inp, outp = os.path.join(d, 'run.py'), os.path.join(d, 'in.pkl'), os.path.join(d, 'out.pkl')
+        open(sf, 'w').write(HISTORY_SCRIPT)
+        pickle.dump(case.data, open(inp, 'wb'))
+        env = dict(os.environ, UH_REPO=common.REPO)
+        p = subprocess.run([sys.executable, sf, os.path.dirname(os.path.dirname(os.path.dirname(os.path.abspath(__file__)))), inp, outp],
+                           capture_output=True, text=True, env=env, cwd=d, timeout=600)
+        if p.returncode != 0 or not os.path.exists(outp):
+            return f"history runner failed: {p.stderr[-400:]}"
+        fails = pickle.load(open(outp, 'rb'))
+    if fails:
+        ha, hb, ra, rb = fails[0]
+        return (f"{len(fails)} history pair(s) differ; first: last program {ha[-1][:60]!r} gives {ra} after {[q[:40] for q in ha[:-1]]} "
+                f"but {rb} after {[q[:40] for q in hb[:-1]]}")
+    return None
+
+
+def _history_items():
+    """a lookup, then a change of the directory made by a program, then the same lookup again — against the history
+    without the first lookup (import by literals / by path, a missing module appearing, a twin making it ambiguous, a
+    file rewritten between two reads)"""
+    from . import c14
+    def write(path, text):
+        return c14.program(path, 'w', [('write', text.encode()), ('close',)])
+    imp1, imp2 = "ㄱ ㅂㅎㄴ", "ㄱ ㄴ ㅂㅎㄷ"
+    bypath = render(bi('ㅂ', str_lit("가.pbhhg")))
+    readf = c14.program("d.txt", 'r', [('read', -1), ('close',)])
+    items = []
+    # a module that does not exist yet, created by a program, then imported
+    items.append(({}, [imp1, write("가.pbhhg", "ㄷㅈ"), imp1], [write("가.pbhhg", "ㄷㅈ"), imp1]))
+    items.append(({}, [bypath, write("가.pbhhg", "ㄷㅈ"), bypath], [write("가.pbhhg", "ㄷㅈ"), bypath]))
+    items.append(({"가/x": b""}, [imp2, write("가/나.pbhhg", "ㄹ"), imp2], [write("가/나.pbhhg", "ㄹ"), imp2]))
+    # a unique module that becomes ambiguous when a twin appears
+    items.append(({"가.pbhhg": "ㄴ".encode()}, [f"({imp1}) (ㄱ ㅎ) ㅅㄷㅎㄷ", write("고.pbhhg", "ㄷ"), imp1], [write("고.pbhhg", "ㄷ"), imp1]))
+    # an import that failed (two expressions) and is then repaired on disk
+    items.append(({"가.pbhhg": "ㄴ ㄷ".encode()}, [f"({imp1}) (ㄱ ㅎ) ㅅㄷㅎㄷ", write("가.pbhhg", "ㅂ"), imp1], [write("가.pbhhg", "ㅂ"), imp1]))
+    # a data file read, rewritten by a program, read again
+    items.append(({"d.txt": b"old"}, [readf, write("d.txt", "new!"), readf], [write("d.txt", "new!"), readf]))
+    # unrelated evaluations in between change nothing
+    items.append(({"가.pbhhg": "ㄴ".encode()}, ["ㄴ ㄷ ㄷㅎㄷ", "ㄴ ㄱ ㄴㄴㅎㄷ".replace("ㄴ ㄱ ㄴㄴㅎㄷ", "(ㄴ ㄱ ㄴㄴㅎㄷ) (ㄱ ㅎ) ㅅㄷㅎㄷ"), imp1], [imp1]))
+    return items
+
+
 @monitor('c20_session')
 def _session(case, a):
     """`data` = a batch of sessions (lists of programs). Each program's outcome inside its session — after
@@ -222,6 +314,7 @@ def cases(rng, tier):
         for i in range(0, len(ss), B):
             yield Case(program=ss[i][0], fs=FS, stdin="in1\nin2\n", tag=tag, monitor='c20_session', data=ss[i:i + B],
                        skip_model=True, timeout=900)
+    yield Case(program="ㄱ", tag='history', monitor='c20_history', data=_history_items(), skip_model=True, timeout=900)
     # stand-alone outcome of every pool program equals the model's (so "stand-alone" means the specified outcome)
     for p in pool:
         yield Case(program=p, fs=FS, stdin="in1\nin2\n", tag='standalone')
@@ -242,7 +335,7 @@ SPEC = {
     'lean': ['C20'],
     'cases': cases,
     'stream': 'C20 session stream',
-    'rule': 'all ordered pairs of the special and host-state programs, all ordered pairs of same-layout programs (one line and several lines, differing in one word at identical positions), equalish sessions (each numeric built-in / math / bitwise function applied in one process to host-equal but language-distinct arguments: ±0.0, 0, ±0.0±0.0i, 1, 1.0, −1, in forward, reverse and shuffled order), and sessions of 2–15 programs (with repetitions and shuffles) drawn from a pool of imports (by literal, by path, '
+    'rule': 'evaluation histories over a scratch directory that is not reset (lookup – a program changes the directory – same lookup, against the history without the first lookup); all ordered pairs of the special and host-state programs, all ordered pairs of same-layout programs (one line and several lines, differing in one word at identical positions), equalish sessions (each numeric built-in / math / bitwise function applied in one process to host-equal but language-distinct arguments: ±0.0, 0, ±0.0±0.0i, 1, 1.0, −1, in forward, reverse and shuffled order), and sessions of 2–15 programs (with repetitions and shuffles) drawn from a pool of imports (by literal, by path, '
             'nested, failing, self-importing a failing module), stack-limit aborts, I/O, dictionaries, built-in modules, '
             'programs that depend on process-wide host settings (printing / ㅁㅈ / ㅈㅅ of integers beyond 4300 digits, relative file paths after imports from sub-directories), random typed and ill-typed programs, all evaluated in one process without resetting anything: every outcome '
             '(result, exception, stdout, consumed stdin) must equal the stand-alone outcome, which in turn must equal the '
